@@ -38,6 +38,7 @@ def kq_rowtab(kernel, size, offs=0):
     q = core.Query("C13", "kernels.c", p, lib_defs=defs, lib_exclude=only, unwind=max(size, 16) + 18 + 256,
                    free_bits=2 * (size + offs) * 8 + 8 + 256 * 8, timeout=900, mem_gb=8, leak=True, flags=("--object-bits", "9"))
     q.fallback = exact
+    q.cost = size
     q.group = "gf256-kernel-%d" % kernel
     return q
 
